@@ -176,7 +176,7 @@ def _run(ctx):
             items = [lg.rand_layout_tree(rng, ids, depth - 1, True, inside_inline=all_inline, text_ws=True,
                                          max_children=rng.choice([3, 5, 12])) for _ in range(n)]
             r = {"k": "list", "t": "taglist", "c": items}
-            add_ws = not (all_inline and rng.random() < 0.6)
+            add_ws = not (rng.random() < (0.6 if all_inline else 0.25))
         else:
             r = lg.rand_layout_tree(rng, ids, depth, True, text_ws=True, max_children=rng.choice([3, 5, 12]),
                                     root_kind=rng.choice(["block", "block", "inline"]))
